@@ -73,13 +73,26 @@ def _child(make_calls, prefix: str, k: int, wfd: int) -> None:
         reached = count[0] >= k and t.is_alive()
         out['reached'] = reached
         evs_b: List[Any] = []
+        tb = None
         if reached:
-            try:
-                evs_b = list(call_b())
-            except BaseException as ex:  # noqa
-                evs_b = [{'ev': 'race-error', 'who': 'B', 'msg': f'{type(ex).__name__}: {ex}'[:120]}]
+            # call B runs in a thread of its own: where A was suspended inside a
+            # region that B must wait for (a lock), B cannot finish before A goes
+            # on - that is an ordinary interleaving, not a failure: A is resumed
+            def run_b():
+                try:
+                    evs_b.extend(list(call_b()))
+                except BaseException as ex:  # noqa
+                    evs_b.append({'ev': 'race-error', 'who': 'B', 'msg': f'{type(ex).__name__}: {ex}'[:120]})
+            tb = threading.Thread(target=run_b, daemon=True)
+            tb.start()
+            tb.join(float(os.environ.get('VERIF_RACE_B_WAIT', '4.0')))
+            out['b_waited_for_a'] = tb.is_alive()
         resume.set()
         t.join(180.0)
+        if tb is not None:
+            tb.join(180.0)
+            if tb.is_alive():
+                evs_b = [{'ev': 'race-error', 'who': 'B', 'msg': 'call B did not finish'}]
         out['events'] = (list(res_a) + evs_b) if k else [e for e in res_a if isinstance(e, dict)
                                                          and e.get('ev') == 'race-error']
         out['hung'] = t.is_alive()
